@@ -333,7 +333,7 @@ class MySQLConnection(DBAPI):
     def _queryAddLimitOffset(cls, query, start, end):
         if not start:
             return "%s LIMIT %i" % (query, end)
-        if not end:
+        if end is None:
             return "%s LIMIT %i, -1" % (query, start)
         return "%s LIMIT %i, %i" % (query, start, end - start)
 
